@@ -37,4 +37,14 @@ package connectconformance
 //@   loop 0: invariant len(testCase.ExpandRequests) <= len(testCase.Request.RequestMessages)
 //@           invariant forall i int :: 0 <= i && i <= rangeindex && testCase.ExpandRequests[i].SizeRelativeToLimit != nil ==>
 //@       anySize[testCase.Request.RequestMessages[i]] == 204800 + *testCase.ExpandRequests[i].SizeRelativeToLimit
-//@   loop 1: invariant 0 <= adjustCount && adjustCount <= 2 && pbPad[reflectReq] >= 0
+//@   loop 1: invariant 0 <= adjustCount && adjustCount <= 3 && pbPad[reflectReq] >= 0 && atentry(pbPad[reflectReq]) >= 0
+//@           invariant adjustCount == 0 ==> pbPad[reflectReq] == atentry(pbPad[reflectReq])
+//@           invariant adjustCount >= 1 ==> fieldSize(atentry(pbPad[reflectReq])) != totalSize - pbBase(reflectReq)
+//@           invariant adjustCount == 1 ==> pbPad[reflectReq] == padStep(atentry(pbPad[reflectReq]), totalSize - pbBase(reflectReq))
+//@           invariant adjustCount >= 2 ==> fieldSize(padStep(atentry(pbPad[reflectReq]), totalSize - pbBase(reflectReq))) != totalSize - pbBase(reflectReq)
+//@           invariant adjustCount == 2 ==> pbPad[reflectReq] == padStep(padStep(atentry(pbPad[reflectReq]), totalSize - pbBase(reflectReq)), totalSize - pbBase(reflectReq))
+//@           invariant adjustCount >= 3 ==> fieldSize(padStep(padStep(atentry(pbPad[reflectReq]), totalSize - pbBase(reflectReq)), totalSize - pbBase(reflectReq))) != totalSize - pbBase(reflectReq)
+//@           invariant adjustCount == 3 ==> pbPad[reflectReq] == padStep(padStep(padStep(atentry(pbPad[reflectReq]), totalSize - pbBase(reflectReq)), totalSize - pbBase(reflectReq)), totalSize - pbBase(reflectReq))
+// completeness: the "can't pad" error is only given when no padding length reaches the size
+//@   assert_at "can't pad to exactly": forall n int :: n >= 0 ==> pbSize(reflectReq, n) != totalSize
+//@   assert_at "can't shrink to exactly": forall n int :: n >= 0 ==> pbSize(reflectReq, n) != totalSize
